@@ -446,13 +446,13 @@ def clusterData (img : Img) (c : Nat) : Bytes :=
 /-- the bytes of a cluster chain, in chain order. -/
 def chainContent (img : Img) (cl : List Nat) : Bytes := cl.flatMap (clusterData img)
 
-/-- the window of a content selected by (start, n, reversed); `none` = the reversed view cannot be
-read (window reaches beyond the data: numpy reshape error). -/
+/-- the window of a content selected by (start, n, reversed); a reversed window that reaches beyond
+the data yields nothing (the first block read is short: after the `fix:` of D17). -/
 def windowOf (content : Bytes) (start n : Int) (rev : Bool) : Option Bytes :=
   if n ≤ 0 then some []
   else
     let w := (content.drop (2 * start.toNat)).take (2 * n.toNat)
-    if rev then (if w.length = 2 * n.toNat then some (reverseWords w) else none) else some w
+    if rev then (if w.length = 2 * n.toNat then some (reverseWords w) else some []) else some w
 
 /-- the chain content in declared coordinates (cluster k of the chain at [k·9216, (k+1)·9216)),
 with the bytes that are not in the file as holes. -/
@@ -462,14 +462,15 @@ def chainHoley (img : Img) (cl : List Nat) : Smpl.ShortRead.Holey :=
 /-- bytes of a sample's data stream: its clusters (after `cluster_top`) from the data area,
 the window selected by the loop mode, read in blocks (forward, or from the end for the reverse
 modes); a block that touches bytes which are not in the file ends the stream.
-`none` = a reversed window that reaches beyond the chain (numpy reshape error). -/
+A reversed window that reaches beyond the chain yields no audio (after the `fix:` of D17; the pinned
+code raised a numpy reshape error that aborted the whole export). -/
 def sampleData (img : Img) (s : SampleNode) : Option Bytes :=
   let (start, n, rev) := sampleWindow s.rec_.loopMode s.rec_.points
   let h := chainHoley img s.clusters
   if n ≤ 0 then some []
   else if rev then
     if 2 * (start.toNat + n.toNat) ≤ h.bytes.length then some (Smpl.ShortRead.readReversed h (2 * start.toNat) (2 * n.toNat))
-    else none
+    else some []                      -- the first block (at the end of the window) is short: the stream ends at once
   else some (Smpl.ShortRead.readForward h (2 * start.toNat) (2 * n.toNat))
 
 def genSample (s : SampleNode) : Smpl.Wav.GenSample :=
